@@ -46,6 +46,23 @@ import re as _re
 K2_RE = _re.compile(r"@\w*[ \t]*\{")
 
 
+def splitter_brace_ok(text):
+    """brace balance as the splitter's value scanner sees it: a brace directly after ANY backslash is no mark; the depth never
+    goes below zero and ends at zero (then `{` + text + `}` is read as one braced value)"""
+    depth, prev = 0, ""
+    for line in text.split("\n"):            # merged_text joins the name fields by newlines: each is written as its own value
+        depth, prev = 0, ""
+        for c in line:
+            if c in "{}" and prev != "\\":
+                depth += 1 if c == "{" else -1
+                if depth < 0:
+                    return False
+            prev = c
+        if depth != 0:
+            return False
+    return True
+
+
 def merged_text(names):
     """the text MergeNameParts (last-name-first) + MergeCoAuthors produce for the name fields, joined"""
     out = []
@@ -554,8 +571,11 @@ def stack_case(fields, mws=None):
     orc = {"ok": ok, "detail": detail}
     if not ok and nc.in_k3(dicts):
         orc["known"] = "K3"
-    elif not ok and any("\\\\" in w for d in dicts for part in d.values() for w in part):
-        orc["known"] = "K10"          # a word with two adjacent backslashes: names.py and the splitter read the next brace differently
+    elif not ok and any("\\\\" in w for d in dicts for part in d.values() for w in part) and not splitter_brace_ok(merged_text(names1)):
+        # K10, as narrowly as the input tells: a word with two adjacent backslashes (names.py and the splitter read the brace
+        # after it differently) AND the merged text is not brace-balanced under the SPLITTER's escape rule, so that the written
+        # field closes early or never.  A double backslash that does not unbalance the written field is not in the class.
+        orc["known"] = "K10"
     elif not ok and K2_RE.search(merged_text(names1)):
         orc["known"] = "K11"          # the merged (last-name-first) text contains a block-start pattern
     rec["oracle"] = orc
